@@ -75,6 +75,8 @@ def prod(
     """
     a = numpoly.aspolynomial(a)
     assert out is None
+    if isinstance(axis, numpy.integer):
+        axis = int(axis)
     if keepdims:
         if axis is None:
             out = _prod(numpoly.reshape(a, -1), axis=0)
